@@ -1202,6 +1202,10 @@ impl<'a> Ex<'a> {
                 self.ctx.dev("C10", format!("C10|resize|ambiguous_start|{}", r.class()), format!("mem_resize_section({start:#x}, {new_len}) -> {}", r.detail()));
             }
             self.ctx.event("resize:ambiguous_start", &r.class());
+            // whichever of them was resized: bytes in the span of the longest of them and of the request
+            // may have come or gone
+            let span = self.m.areas.iter().filter(|a| a.start == start).map(|a| a.len).max().unwrap_or(0).max(new_len);
+            self.flat_forget(start, span);
             let o = Model::from_ax(&self.ax);
             self.m.areas = o.areas;
             self.check_areas("C10", "C10|resize|ambiguous_start", &format!("after mem_resize_section({start:#x}, {new_len}) -> {}", r.class()));
